@@ -736,6 +736,10 @@ func (x *Exec) evalBuiltin(name string, e *ast.CallExpr, st *State) (Value, type
 			h := x.newSlice(st, n, es, &dstArr, sl.Elem())
 			dst, s1, s2 := dstArr, x.sliceArr(st, base, es, sl.Elem()), x.sliceArr(st, ov, es, sl.Elem())
 			st.assume(fmt.Sprintf("(forall ((i Int)) (! (= (select %s i) (ite (< i %s) (select %s i) (select %s (- i %s)))) :pattern ((select %s i))))", dst.S, x.slen(base).S, s1.S, s2.S, x.slen(base).S, dst.S))
+			if x.isLocStruct(sl.Elem()) {
+				// struct values are copied into the result's own element variables
+				x.sliceSetArr(st, h, es, x.structElems(st, sl.Elem(), n, &dst), sl.Elem())
+			}
 			return h, t
 		}
 		arr := x.sliceArr(st, base, es, sl.Elem())
@@ -745,6 +749,9 @@ func (x *Exec) evalBuiltin(name string, e *ast.CallExpr, st *State) (Value, type
 		}
 		n := Term{fmt.Sprintf("(+ %s %d)", x.slen(base).S, len(e.Args)-1), SInt}
 		x.noteAssume("append yields a fresh slice value (sharing of spare capacity with the operand is not modelled)")
+		if x.isLocStruct(sl.Elem()) {
+			arr = x.structElems(st, sl.Elem(), n, &arr)
+		}
 		return x.newSlice(st, n, es, &arr, sl.Elem()), t
 	case "make":
 		t := x.typeOf(e.Args[0])
@@ -754,6 +761,9 @@ func (x *Exec) evalBuiltin(name string, e *ast.CallExpr, st *State) (Value, type
 			n := x.evalT(e.Args[1], st)
 			x.safety(st, "make-len", e, "(>= "+n.S+" 0)")
 			arr := Term{"((as const " + string(arraySort(SInt, es)) + ") " + zeroOf(es).S + ")", arraySort(SInt, es)}
+			if x.isLocStruct(u.Elem()) {
+				arr = x.structElems(st, u.Elem(), n, nil)
+			}
 			h := x.newSlice(st, n, es, &arr, u.Elem())
 			return h, t
 		case *types.Map:
